@@ -173,11 +173,32 @@ class BeaconCheck(verif.Check):
     """A property of the beacon family: `select(rec)` picks the records it is about, `judge(rec)` returns
     None (fine) or a mismatch code (2 = Go differs from the Spec on this input; 1 = correspondence only)."""
 
-    def __init__(self, prop, select, judge, rule, **kw):
+    def __init__(self, prop, select, judge, rule, extra_streams=(), **kw):
         super().__init__(prop, **kw)
         self.select = select
         self.judge = judge
         self.rule = rule
+        # extra_streams: names of further harness binaries (harness/cmd/<name>) whose vm_compute cases tie the
+        # Impl models of Beacon/Impl to the exported Go functions (granularity of the refinement lemmas)
+        self.extra_streams = list(extra_streams)
+
+    def _extra(self, name, tier, seed):
+        rc, out = verif.build_harness(name)
+        if rc != 0:
+            return None, [], [dict(kind="correspondence", detail="harness %s does not build:\n%s" % (name, out[-2000:]))]
+        outdir = os.path.join(verif.RUN, name if verif.REPO == "/repo" else name + "_" + hashlib.sha1(verif.REPO.encode()).hexdigest()[:8])
+        rc, out = verif.run_harness(name, outdir, seed, tier, timeout=1200)
+        if rc != 0:
+            return None, [], [dict(kind="correspondence", detail="harness %s failed (rc=%d):\n%s" % (name, rc, out[-2000:]))]
+        summ, mism, errors = verif.eval_cases(outdir)
+        problems = [dict(kind="correspondence", detail="model evaluation failed (%s): %s" % (name, e)) for e in errors]
+        found = []
+        if mism:
+            cases = verif.load_cases(outdir, [i for i, _ in mism])
+            for i, code in mism:
+                c = cases.get(i, {})
+                found.append(dict(index="%s:%d" % (name, i), code=code, case=c.get("case"), coq=c.get("coq"), kind=name + "/" + str(c.get("kind"))))
+        return summ, found, problems
 
     def correspondence(self, tier, seed, replay=None):
         if replay:
@@ -204,7 +225,17 @@ class BeaconCheck(verif.Check):
         summ = dict(evaluations=len(mine), distinct_nontrivial=len(distinct), samples=samples, histogram=hist, rule=self.rule,
                     x_generator_distribution=p["gen_summary"], x_pipeline=p.get("meta", {}), x_chains=len(p["dirs"]),
                     x_missing_agg_lookups=p.get("missing_agg", 0))
-        return summ, found, list(p["problems"])
+        problems = list(p["problems"])
+        for name in self.extra_streams:
+            es, ef, ep = self._extra(name, tier, seed)
+            problems.extend(ep)
+            found.extend(ef)
+            if es:
+                summ["evaluations"] += es.get("evaluations", 0)
+                summ["distinct_nontrivial"] += es.get("distinct_nontrivial", 0)
+                summ["x_stream_" + name] = dict(evaluations=es.get("evaluations"), histogram=es.get("histogram"), rule=es.get("rule"),
+                                                samples=es.get("samples", [])[:3])
+        return summ, found, problems
 
 
 # ---------------------------------------------------------------------------------------------
